@@ -10,15 +10,17 @@ from vlib import Broken, read_ndjson, write_ndjson, validate_history_trace, para
 SPEC = "c12_resp_cache"
 PERSEC = 4
 TYPES = ["cache", "rel", "abs", "mem"]
-# the key space of generated behaviours: k2, k3, k4 each differ from k1 in exactly one component of the key
-KEYS = {"k1": ("GET", "a.com/x", "1"), "k2": ("POST", "a.com/x", "1"), "k3": ("GET", "a.com/y", "1"),
-        "k4": ("GET", "a.com/x", "2")}
-GEN = {"cache": {"typ": "cache", "ttl": 3, "max": 4, "sel": ["id"], "relevant": []},
+# the key space of generated behaviours: k2, k3, k4 each differ from k1 in exactly one component of the key; k4 carries the
+# same value as k1 in the *other* selected path parameter (the first one missing)
+KEYS = {"k1": ("GET", "a.com/x", {"id": "1"}), "k2": ("POST", "a.com/x", {"id": "1"}), "k3": ("GET", "a.com/y", {"id": "1"}),
+        "k4": ("GET", "a.com/x", {"org": "1"})}
+GEN = {"cache": {"typ": "cache", "ttl": 3, "max": 4, "sel": ["id", "org"], "relevant": []},
        "rel": {"typ": "rel", "ttl": 0, "max": -1, "sel": [], "relevant": [429]},
        "abs": {"typ": "abs", "ttl": 0, "max": -1, "sel": [], "relevant": [429]},
-       "mem": {"typ": "mem", "ttl": 0, "max": 4, "sel": ["id"], "relevant": []}}
+       "mem": {"typ": "mem", "ttl": 0, "max": 4, "sel": ["id", "org"], "relevant": []}}
 # configurations of the exhaustive instances (MC_*.cfg), needed to replay their counterexamples
 MCCONF = {"cache": {"typ": "cache", "ttl": 2, "max": 3, "sel": ["id"], "relevant": []},
+          "mem": {"typ": "mem", "ttl": 0, "max": 3, "sel": ["id", "org"], "relevant": []},
           "abs": {"typ": "abs", "ttl": 0, "max": -1, "sel": [], "relevant": [429]}}
 
 
@@ -31,8 +33,8 @@ class Unforceable(Exception):
 
 # ----------------------------------------------------------------------------- scripts from model behaviours
 def op_of(kid, typ, rng, extra):
-    m, u, idv = KEYS[kid]
-    pp = {"id": idv, "z": rng.choice(["p", "q", "r"])} if typ in ("cache", "mem") else {"z": rng.choice(["p", "q"])}
+    m, u, sel = KEYS[kid]
+    pp = dict(sel, z=rng.choice(["p", "q", "r"])) if typ in ("cache", "mem") else {"z": rng.choice(["p", "q"])}
     d = {"m": m, "u": u, "pp": pp}
     d.update(extra)
     return d
@@ -122,10 +124,11 @@ def probes(typ, rng):
 
 
 # ----------------------------------------------------------------------------- random scripts
-def rand_config(rng, typ):
+def rand_config(rng, typ, first=False):
     cfg = {"typ": typ, "ttl": 0, "max": -1, "sel": [], "relevant": []}
     if typ in ("cache", "mem"):
-        cfg["sel"] = rng.choice([[], ["id"], ["id"], ["id", "org"]])
+        # the first configuration of every type always selects two parameters (keys that differ only in *which* one has a value)
+        cfg["sel"] = ["id", "org"] if first else rng.choice([[], ["id"], ["id", "org"], ["org", "id"]])
         cfg["max"] = rng.choice([3, 4, 6])
         if typ == "cache":
             cfg["ttl"] = rng.choice([2, 3, 4, 6])
@@ -148,6 +151,9 @@ def key_pool(rng, cfg):
     var(m="POST"); var(u="api.com/v1/item"); var(id="8"); var(org="acm"); var(z="1")
     var(id="")                       # a parameter without a value
     var(id="7.org:acme", org="")     # a value that spells out the next selected parameter
+    var(id="acme", org="7")          # the same values, permuted
+    var(id="7", org="")              # one of two selected parameters missing ...
+    var(id="", org="7")              # ... and the same value sitting in the other one
     if cfg["typ"] in ("rel", "abs"):
         pool = pool[:3] + [pool[5]]       # only method and URL are in the throttling remedy's key
     return pool
@@ -156,7 +162,7 @@ def key_pool(rng, cfg):
 def rand_history(rng, cfg, n, conc):
     typ = cfg["typ"]
     pool = key_pool(rng, cfg)
-    hot = pool[: rng.choice([2, 3, len(pool)])]
+    hot = [pool[0]] + rng.sample(pool[1:], rng.choice([1, 2, 3]))
     now = rng.randint(0, 7)
     h = [{"ev": "reset", "now": now}]
     vid = [0]
@@ -187,10 +193,35 @@ def rand_history(rng, cfg, n, conc):
                 exps.append(now + o["hdr"] if typ == "rel" else o["hdr"])
         return o
 
+    def size_race():
+        """writers held at the yield point between the size test and the insertion, around the size limit: same and different
+        keys, overwrites with larger and smaller values, refused writes; then further writes; then every key is probed"""
+        keys = rng.sample(pool, 2) + [rng.choice(pool)]
+        ops = []
+        for _ in range(rng.randint(2, 3)):
+            o = resp()
+            o.update(json.loads(json.dumps(rng.choice(keys))))
+            o.update({"op": "resp", "gate": True, "sz": rng.choice([1, 2, 2, 3])})
+            ops.append(o)
+        order = list(range(len(ops)))
+        rng.shuffle(order)
+        steps = [{"a": "start", "i": i} for i in order]
+        rng.shuffle(order)
+        steps += [{"a": "release", "i": i} for i in order]
+        out = [{"ev": "sched", "ops": ops, "steps": steps}]
+        for _ in range(rng.randint(1, 2)):
+            o = resp()
+            o.update(json.loads(json.dumps(rng.choice(pool))))
+            o["sz"] = rng.choice([1, 1, 2])
+            out.append(dict(o, ev="resp"))
+        return out + [dict(json.loads(json.dumps(k)), ev="req") for k in pool]
+
     lagging = False
     for _ in range(n):
         x = rng.random()
-        if x < 0.22:
+        if x < 0.08 and typ in ("cache", "mem"):
+            h.extend(size_race())
+        elif x < 0.22:
             fut = [t - now for t in exps if t >= now]
             d = rng.choice([1, 1, 2, 3] + ([min(fut), min(fut) + 1, max(fut) + 1] if fut else []))
             d = max(1, d)
@@ -419,7 +450,8 @@ def run(ctx):
     good = [("MC_cache" + sfx, "caching remedy"), ("MC_rel" + sfx, "throttling remedy, relative retry-after"),
             ("MC_abs" + sfx, "throttling remedy, absolute retry-after"), ("MC_mem" + sfx, "MemoryCache driven directly")]
     bad = [("MC_cache_kf", "cache", "size test outside the lock"), ("MC_cache_noexp", "cache", "no expiry test in Get"),
-           ("MC_abs_trunc", "abs", "clock truncated to whole seconds"), ("MC_cache_leak", "cache", "overwritten entry's size not given back")]
+           ("MC_abs_trunc", "abs", "clock truncated to whole seconds"), ("MC_cache_leak", "cache", "overwritten entry's size not given back"),
+           ("MC_mem_refleak", "mem", "refused overwrite does not restore the accounting")]
     def mc(it):
         name, what = it[0], it[-1]
         if it in good:
@@ -499,7 +531,7 @@ def run(ctx):
     ncfg, nh, hl = (8, 16, 30) if not T else (32, 80, 40)
     scripts = []
     for c in range(ncfg):
-        cfg = rand_config(ctx.rng, TYPES[c % 4])
+        cfg = rand_config(ctx.rng, TYPES[c % 4], first=c < 4)
         scripts.append({"config": cfg, "histories": [rand_history(ctx.rng, cfg, hl, conc=(i % 3 == 2)) for i in range(nh)]})
     traces = execute(ctx, binary, scripts, "rand")
     ctx.log("recorded %d random scripts" % len(scripts))
